@@ -7,6 +7,7 @@
    function `fr`, the argument-decoding predicate `ok` and the method-error predicate `ce` are
    arbitrary, and so is the connection's message-type filter `flt`.  `bounded st`: no client has drawn more than 2^31 message ids. *)
 From QV Require Import Call CallProofs CallWitness.
+From QV Require Teardown TeardownProofs.
 Local Open Scope N_scope.
 
 (* client.nextMessageID: two calls of one client whose issue indices differ by < 2^31 get different ids *)
@@ -81,6 +82,53 @@ Theorem C04_refuted_post_answered :
   back (run_ex cfg_pinned ex_post_noact) (TRaw 0 0) = 1%nat /\ rawty (run_ex cfg_pinned ex_post_noact) 0 0 = T_Post.
 Proof. exact ex_post_answered. Qed.
 Print Assumptions C04_refuted_post_answered.
+
+(* ---- calls issued while the endpoint of their client loses the connection (Teardown.v) ----
+   any schedule of any number of calls (register, send), answers, the loss noticed by the reader, and any
+   number of overlapping executions of endPoint.closeWith, each in two halves *)
+
+(* whatever the order of the two halves: a call returns at most once *)
+Theorem C04_teardown_at_most_once : forall close_first ls i,
+  (Teardown.rets (Teardown.exec close_first ls) i <= 1)%nat /\
+  (Teardown.stat (Teardown.exec close_first ls) i = Teardown.SDone <-> Teardown.rets (Teardown.exec close_first ls) i = 1%nat).
+Proof. exact TeardownProofs.returns_at_most_once. Qed.
+Print Assumptions C04_teardown_at_most_once.
+
+(* the order of the source (stream.Close() first, tie_c04_closewith_close_first): once one execution of
+   closeWith is over no call is blocked waiting, whenever it was issued; a call that has registered
+   its handler and not written its frame yet returns (an error) at its next step *)
+Theorem C04_teardown_every_call_returns : forall ls,
+  let s := Teardown.exec true ls in (Teardown.completed s > 0)%nat ->
+  forall i, Teardown.stat s i <> Teardown.SWait /\
+    (forall b, Teardown.stat s i = Teardown.SReg b ->
+       Teardown.stat (Teardown.step true s (Teardown.DSend i)) i = Teardown.SDone /\
+       Teardown.rets (Teardown.step true s (Teardown.DSend i)) i = 1%nat).
+Proof. exact TeardownProofs.every_call_returns. Qed.
+Print Assumptions C04_teardown_every_call_returns.
+
+(* the other order (handlers released first, stream closed last) loses a call: a call that starts
+   between the two halves after the reader noticed the loss waits for ever (until somebody calls
+   Close() again); with the order of the source the same schedule ends with both calls returned *)
+Theorem C04_teardown_order_matters :
+  (let s := Teardown.exec false TeardownProofs.witness_ls in
+   Teardown.completed s = 1%nat /\ Teardown.inprog s = 0%nat /\ Teardown.reader s = false /\ Teardown.open s = false /\
+   Teardown.stat s 0 = Teardown.SDone /\ Teardown.stat s 1 = Teardown.SWait /\ Teardown.rets s 1 = 0%nat /\
+   forall ls', Teardown.no_tear1 ls' = true ->
+     Teardown.stat (Teardown.exec_from false s ls') 1 = Teardown.SWait /\ Teardown.rets (Teardown.exec_from false s ls') 1 = 0%nat) /\
+  (let s := Teardown.exec true TeardownProofs.witness_ls in
+   Teardown.stat s 0 = Teardown.SDone /\ Teardown.rets s 0 = 1%nat /\ Teardown.stat s 1 = Teardown.SDone /\ Teardown.rets s 1 = 1%nat).
+Proof. exact (conj TeardownProofs.order_matters TeardownProofs.same_schedule_source_order). Qed.
+Print Assumptions C04_teardown_order_matters.
+
+(* the scenarios the harness forces (calls placed before the loss / while the reader holds its error /
+   inside stream.Close() / after it; loss noticed by the reader or local Close(); answers arriving or
+   not): every placement of up to four calls ends with every call returned *)
+Theorem C04_teardown_scenarios_small_scope :
+  forallb (fun ps => TeardownProofs.scen_ok true false false ps && TeardownProofs.scen_ok true false true ps &&
+                     TeardownProofs.scen_ok true true false ps && TeardownProofs.scen_ok true true true ps)
+          (TeardownProofs.all_lists 4) = true.
+Proof. exact TeardownProofs.scenarios_small_scope. Qed.
+Print Assumptions C04_teardown_scenarios_small_scope.
 
 (* two calls in flight on one connection, sent in the opposite order of their ids: each returns
    once with the result of its own payload, each method body ran once *)
